@@ -481,7 +481,7 @@ func (mon) Plan(prop, tier string, seed int64) []drv.Shard {
 	parts := 16
 	stride, maxNodes, nrand := 16, 4, 20000
 	if tier == "thorough" {
-		stride, maxNodes, nrand = 1, 5, 4000000
+		stride, maxNodes, nrand = 1, 5, 10000000
 	}
 	small := 1 + 256 + 65536
 	for p := 0; p < parts; p++ {
